@@ -32,7 +32,9 @@ Canon(sig) == LET cs == ArgCodes(sig) IN
 VARIABLE sig
 Init == sig \in Sigs
 Next == UNCHANGED sig
-OnePerCode == Len(Extract(Canon(sig)).args) = Cardinality({i \in 1..Len(sig) : sig[i] \in Codes})
+\* (the type codes are spelled out here, independently of Closure!Codes)
+TypeCodes == {"i", "u", "f", "s", "o", "n", "a", "h"}
+OnePerCode == Len(Extract(Canon(sig)).args) = Cardinality({i \in 1..Len(sig) : sig[i] \in TypeCodes})
 InOrder == \A i \in 1..Len(ArgCodes(sig)) :
               LET code == ArgCodes(sig)[i]  a == Extract(Canon(sig)).args[i] IN
               (code \in {"i", "u"} => a.k = "int") /\ (code = "f" => a.k = "float") /\ (code = "s" => a.k = "str")
